@@ -19,7 +19,7 @@ OBLIGATION_MSGS = (
 )
 OBLIGATION_RE = re.compile(
     r'postcondition not satisfied|precondition not satisfied|possible arithmetic underflow/overflow|'
-    r'possible division by zero|invariant not satisfied|assertion failed|could not prove termination|'
+    r'possible division by zero|invariant not satisfied|assertion failed|could not prove termination|unable to prove post-condition of closure|'
     r'decreases not satisfied|possible bit shift|cannot show invariant holds|invariant not satisfied')
 TOOL_LIMIT_RE = re.compile(r'not supported|unsupported|Resource limit|rlimit|timed out|panicked|internal error|cyclic')
 
